@@ -939,7 +939,7 @@ def main(pid, build_cases, files, replays=None, level="model_checking", notes=No
                     wall_s=round(wall, 2), violations=len(new_viol),
                     known_findings_reported=sorted(seen_known))
     os.makedirs(os.path.join(VERIF, "evidence"), exist_ok=True)
-    if replay_only is None and not args.only:
+    if replay_only is None and not args.only and not os.environ.get("VERIF_NO_EVIDENCE"):
         json.dump(evidence, open(os.path.join(VERIF, "evidence", "%s.json" % pid), "w"), indent=1, default=str)
 
     print("%s tier=%s cases=%d obligations=%d discharged=%d inconclusive=%d known=%d paths=%d queries=%d solver=%.1fs wall=%.1fs" % (
